@@ -10,18 +10,24 @@ Proof.
   f_equal; apply be32_mod; change (2^32) with 4294967296; lia.
 Qed.
 
-Lemma len128_impl_ok (k r : nat) : (r < 128)%nat -> N.of_nat k < 2^64 ->
-  len128_impl (N.of_nat k mod 2^64) r = len128_spec (N.of_nat (k * 128 + r)).
+Lemma len128_impl_okN (K : N) (r : nat) : (r < 128)%nat -> K < 2^64 ->
+  len128_impl (K mod 2^64) r = len128_spec (K * 128 + N.of_nat r).
 Proof.
   intros Hr Hk. unfold len128_impl, len128_spec.
   rewrite w64_mod, !N.shiftr_div_pow2, !N.shiftl_mul_pow2.
-  set (K := N.of_nat k) in *. set (R := N.of_nat r).
-  replace (N.of_nat (k * 128 + r)) with (K * 128 + R) by lia.
-  assert (HR : R < 128) by lia. clearbody K R.
+  set (R := N.of_nat r).
+  assert (HR : R < 128) by lia. clearbody R.
   change (2^64) with 18446744073709551616 in *.
   change (2^54) with 18014398509481984.
   change (2^10) with 1024. change (2^3) with 8.
   f_equal; apply be64_mod; change (2^64) with 18446744073709551616; lia.
+Qed.
+
+Lemma len128_md (n0 : N) (k r : nat) : (r < 128)%nat -> n0 + N.of_nat k < 2^64 ->
+  len128_impl ((n0 + N.of_nat k) mod 2^64) r
+  = len128_spec (n0 * N.of_nat 128 + N.of_nat (k * 128 + r)).
+Proof.
+  intros Hr Hk. rewrite len128_impl_okN by assumption. f_equal. lia.
 Qed.
 
 Theorem sha256_stream chunks :
@@ -29,7 +35,7 @@ Theorem sha256_stream chunks :
 Proof.
   apply md_stream with (Lok := fun _ => True);
     [lia | lia | apply len64_spec_length
-    | intros k r Hr _; apply len64_impl_ok; exact Hr | exact I].
+    | intros k r Hr _; apply len64_md; exact Hr | exact I].
 Qed.
 
 Theorem sha224_stream chunks :
@@ -38,7 +44,7 @@ Proof.
   unfold sha224_finish, sha224. f_equal.
   apply md_stream with (Lok := fun _ => True);
     [lia | lia | apply len64_spec_length
-    | intros k r Hr _; apply len64_impl_ok; exact Hr | exact I].
+    | intros k r Hr _; apply len64_md; exact Hr | exact I].
 Qed.
 
 Theorem sha1_stream chunks :
@@ -46,7 +52,7 @@ Theorem sha1_stream chunks :
 Proof.
   apply md_stream with (Lok := fun _ => True);
     [lia | lia | apply len64_spec_length
-    | intros k r Hr _; apply len64_impl_ok; exact Hr | exact I].
+    | intros k r Hr _; apply len64_md; exact Hr | exact I].
 Qed.
 
 Theorem sha512_stream chunks :
@@ -56,7 +62,7 @@ Proof.
   intros H.
   apply md_stream with (Lok := fun k => N.of_nat k < 2^64);
     [lia | lia | reflexivity
-    | intros k r Hr Hk; apply len128_impl_ok; assumption | exact H].
+    | intros k r Hr Hk; apply len128_md; [exact Hr | rewrite N.add_0_l; exact Hk] | exact H].
 Qed.
 
 Theorem sha384_stream chunks :
@@ -66,7 +72,7 @@ Proof.
   intros H. unfold sha384_finish, sha384. f_equal.
   apply md_stream with (Lok := fun k => N.of_nat k < 2^64);
     [lia | lia | reflexivity
-    | intros k r Hr Hk; apply len128_impl_ok; assumption | exact H].
+    | intros k r Hr Hk; apply len128_md; [exact Hr | rewrite N.add_0_l; exact Hk] | exact H].
 Qed.
 
 (* FIPS 180-4 / RFC 3174 vectors for "abc" *)
